@@ -269,7 +269,7 @@ func TestC10(t *testing.T) {
 	if r.Violations() > 0 {
 		return
 	}
-	r.Rapid("pair", kit.Pick(1500, 60000), func(rt *rapid.T) {
+	r.Rapid("pair", kit.Pick(6000, 120000), func(rt *rapid.T) {
 		c, ok := genC10Case(rt)
 		if !ok {
 			rt.Skip("no case")
